@@ -81,9 +81,13 @@ func (i *interpreter) sentinel(name, msg string) value {
 type vfileInfo struct {
 	name  string
 	isDir bool
+	size  int64
 }
 
-type vfile struct{ path string }
+type vfile struct {
+	path string
+	off  int
+}
 
 type vyamlDecoder struct {
 	path string
@@ -205,9 +209,74 @@ func init() {
 		if _, ok := fr.i.ex.env().files[p]; !ok && !fr.i.ex.env().isDir(p) {
 			return tuple{(*value)(nil), mkPathError(fr, "open", p, "no such file or directory")}
 		}
-		return tuple{newPtr(nativeObj{&vfile{p}}), nilError()}
+		return tuple{newPtr(nativeObj{&vfile{path: p}}), nilError()}
 	}
 	I["(*os.File).Close"] = func(fr *frame, a []value) value { return nilError() }
+	// reading an opened virtual file: contents are concretised (finite-domain strings fork)
+	fileOf := func(fr *frame, a value) (*vfile, string) {
+		f, ok := nativeOfLoose(a).(*vfile)
+		if !ok {
+			panic(engineError{"os.File method on an unknown file"})
+		}
+		c, ok := fr.i.ex.env().files[f.path]
+		if !ok {
+			return f, ""
+		}
+		return f, fr.i.ex.concStr(strOfLoose(c))
+	}
+	I["(*os.File).Stat"] = func(fr *frame, a []value) value {
+		f, content := fileOf(fr, a[0])
+		fi := fr.mkFileInfo(f.path, fr.i.ex.env().isDir(f.path) && content == "")
+		(*(fi.(iface).v.(*value))).(nativeObj).v.(*vfileInfo).size = int64(len(content))
+		return tuple{fi, nilError()}
+	}
+	I["(*os.fileStat).Size"] = func(fr *frame, a []value) value { return fiOf(a[0]).size }
+	readInto := func(fr *frame, f *vfile, content string, buf []value) int {
+		n := 0
+		for n < len(buf) && f.off < len(content) {
+			buf[n] = content[f.off]
+			n++
+			f.off++
+		}
+		return n
+	}
+	I["(*os.File).Read"] = func(fr *frame, a []value) value {
+		f, content := fileOf(fr, a[0])
+		buf, _ := a[1].([]value)
+		n := readInto(fr, f, content, buf)
+		if n == 0 && len(buf) > 0 {
+			return tuple{0, fr.i.sentinel("io.EOF", "EOF")}
+		}
+		return tuple{n, nilError()}
+	}
+	I["io.ReadFull"] = func(fr *frame, a []value) value {
+		r, _ := a[0].(iface)
+		f, ok := nativeOfLoose(r.v).(*vfile)
+		if !ok {
+			panic(engineError{"io.ReadFull on a reader that is not a virtual file"})
+		}
+		_, content := fileOf(fr, r.v)
+		buf, _ := a[1].([]value)
+		n := readInto(fr, f, content, buf)
+		switch {
+		case n == len(buf):
+			return tuple{n, nilError()}
+		case n == 0:
+			return tuple{0, fr.i.sentinel("io.EOF", "EOF")}
+		}
+		return tuple{n, fr.i.sentinel("io.ErrUnexpectedEOF", "unexpected EOF")}
+	}
+	I["io.ReadAll"] = func(fr *frame, a []value) value {
+		r, _ := a[0].(iface)
+		f, ok := nativeOfLoose(r.v).(*vfile)
+		if !ok {
+			panic(engineError{"io.ReadAll on a reader that is not a virtual file"})
+		}
+		_, content := fileOf(fr, r.v)
+		rest := content[f.off:]
+		f.off = len(content)
+		return tuple{ropeBytes{rest}, nilError()}
+	}
 
 	// filepath.Walk: the standard library's algorithm on the virtual file system
 	I["path/filepath.Walk"] = func(fr *frame, a []value) value {
